@@ -354,6 +354,15 @@ def build_da(cfg, ds: DataSet, naming=NAMINGS[0], layout='plain', rng=None, shuf
         for k, c in order:
             coords[coord_name(naming, c)] = sc.scalar(xs[k][0], unit=cunit)
         da = sc.DataArray(data, coords=coords)
+    if rng is not None and da.ndim and rng.random() < 0.25:
+        # coordinates flagged "unaligned" (what used to be attributes) are coordinates all the same: which data can
+        # be written, and which coordinate becomes X, does not depend on the flag
+        for cname in list(da.coords):
+            if rng.random() < 0.6:
+                try:
+                    da.coords.set_aligned(cname, False)
+                except Exception:  # noqa: BLE001   (views of a larger object have read-only metadata)
+                    break
     if getattr(ds, 'single', False):       # the data in single precision (exact: Y and variances are float32 numbers)
         da = sc.DataArray(da.data.astype('float32'), coords={k: da.coords[k] for k in da.coords})
         parent = None
